@@ -113,7 +113,7 @@ pub fn run(repeats: u64, n: u64) -> (u64, u64, u64, u64, Vec<String>) {
                     *o = synthetic(&c2, rng);
                 }
             };
-            let out = check_law(&LawJob { cell, sampler: &fill, law: &law, n, seed: hseed(&[*k, cell.hash64(), 0x5E1F]), min_n: 0 });
+            let out = check_law(&LawJob { cell, sampler: crate::stats::Src::Fn(&fill), law: &law, n, seed: hseed(&[*k, cell.hash64(), 0x5E1F]), min_n: 0 });
             (!out.confirmed.is_empty(), format!("{}: {:?}", cell.key(), out.confirmed.first()))
         })
         .collect();
@@ -155,7 +155,7 @@ pub fn run(repeats: u64, n: u64) -> (u64, u64, u64, u64, Vec<String>) {
                     *o = x;
                 }
             };
-            let out = check_law(&LawJob { cell, sampler: &fill, law: &law, n: 4_000_000, seed: hseed(&[kind as u64, cell.hash64(), 0xDEFE]), min_n: 0 });
+            let out = check_law(&LawJob { cell, sampler: crate::stats::Src::Fn(&fill), law: &law, n: 4_000_000, seed: hseed(&[kind as u64, cell.hash64(), 0xDEFE]), min_n: 0 });
             (!out.confirmed.is_empty(), format!("{} defect {}", cell.key(), kind))
         })
         .collect();
